@@ -231,7 +231,8 @@ func corpus() []desc {
 			c = append(c, desc{Kind: "fs", OSFS: osfs, Size: size, Ranges: false, Compress: false, AE: []byte("gzip")})
 		}
 	}
-	// a compressed sibling left over from another version of the file (older, same second, newer)
+	// a compressed sibling left over from another version of the file, older or newer (repaired defect: a newer one
+	// was served as it was)
 	for _, size := range []int{100, 8192} {
 		for _, delta := range []int64{-86400, -2, -1, 1, 3600} {
 			for _, ims := range []string{"", validatorIMS(size)[2], validatorIMS(size)[1]} {
@@ -440,10 +441,6 @@ func run(d desc) hlib.Case {
 		coq := hlib.App("CSibling", hlib.Z(int64(d.Size)), hlib.Z(mt), hlib.Z(startTime.Unix()), hlib.Z(d.Delta), hlib.Hex(d.IMS), g.term, h.term)
 		c := hlib.Case{Coq: coq, Kind: "sibling-" + strconv.Itoa(g.status), Size: d.Size,
 			Sig: fmt.Sprintf("sibling-%d-%d-%d-%v", d.Size, d.Delta, g.status, len(d.IMS) > 0)}
-		if d.Delta > 0 {
-			// a sibling that is newer than the file is served as it is: known finding
-			c.Key = "stale-compressed-sibling"
-		}
 		return c
 	case "fs":
 		g := doRequest(d, "GET")
